@@ -105,11 +105,11 @@ def op_set(seval, args):
             defined_at = seval.environment
             steps = key.steps
             while steps > 0:
-                defined_at = seval.environment.parent
+                defined_at = defined_at.parent
                 steps -= 1
 
-            # get the dict out of the environment
-            defined_at = defined_at.environment
+            # get the dict out of the environment that holds the binding
+            defined_at = defined_at.is_defined(key.name)
         else:
             defined_at = seval.environment.is_defined(key.name)
 
